@@ -666,4 +666,1324 @@ theorem build_spec {G : List String} {env : TyEnv} {D : List String} {st : BStat
       · exact Or.inl h'
       · exact Or.inr (by simpa [blockRefsOf] using h')
 
+/-! ## defining a value: placeholders are replaced -/
+
+def maskBlock (D : List String) (b : Block) : Block := { b with instrs := b.instrs.map (maskInstr D) }
+
+theorem dst_maskInstr (D : List String) (i : Instr) : (maskInstr D i).dst? = i.dst? := by
+  cases i <;> rfl
+
+theorem isTerminator_maskInstr (D : List String) (i : Instr) : (maskInstr D i).isTerminator = i.isTerminator := by
+  cases i <;> rfl
+
+/-- operands are values of the function or module-level names -/
+def opsOk (G : List String) (env : TyEnv) (i : Instr) : Prop := ∀ o ∈ operands i, (tyOf G env o).isSome = true
+
+theorem tyOf_isSome_glob {G : List String} {env : TyEnv} {g : String}
+    (h : (tyOf G env (.glob g)).isSome = true) : g ∈ G := by
+  obtain ⟨T, hT⟩ := Option.isSome_iff_exists.1 h
+  exact ((tyOf_glob G env g T).1 hT).1
+
+theorem patchOpnd_maskOp {G : List String} {env : TyEnv} (D : List String) (d : String) (hd : d ∉ G)
+    (o : Operand) (ho : (tyOf G env o).isSome = true) :
+    patchOpnd d (.loc d) (maskOp D o) = maskOp (d :: D) o := by
+  cases o with
+  | glob g =>
+    have hg : g ∈ G := tyOf_isSome_glob ho
+    have : ¬ g = d := fun e => hd (e ▸ hg)
+    simp [maskOp, patchOpnd, this]
+  | loc x =>
+    by_cases hx : x ∈ D
+    · simp [maskOp, patchOpnd, hx]
+    · by_cases hxd : x = d
+      · subst hxd; simp [maskOp, patchOpnd, hx]
+      · simp [maskOp, patchOpnd, hx, hxd]
+
+/-- `replace_by` on a recorded instruction = the instruction recorded with one more value defined -/
+theorem patchInstr_maskInstr {G : List String} {env : TyEnv} (D : List String) (d : String) (T : Ty)
+    (hd : d ∉ G) (hT : lookupTy env d = some T) (i : Instr) (hops : opsOk G env i)
+    (hty : typedOk G env i = true) :
+    patchInstr d (.loc d) T (maskInstr D i) = maskInstr (d :: D) i := by
+  have P := fun o (ho : o ∈ operands i) => patchOpnd_maskOp (G := G) (env := env) D d hd o (hops o ho)
+  cases i with
+  | const _ _ _ => rfl
+  | undefined _ _ => rfl
+  | literal _ _ => rfl
+  | alloc _ _ _ => rfl
+  | exit => rfl
+  | jump _ => rfl
+  | asm _ _ _ _ => simp [typedOk] at hty
+  | addrof dd s => simp [maskInstr, patchInstr, P s (by simp [operands, Instr.uses])]
+  | binop dd ty op a b =>
+    simp [maskInstr, patchInstr, P a (by simp [operands, Instr.uses]), P b (by simp [operands, Instr.uses])]
+  | unop dd ty op a => simp [maskInstr, patchInstr, P a (by simp [operands, Instr.uses])]
+  | cast dd ty a => simp [maskInstr, patchInstr, P a (by simp [operands, Instr.uses])]
+  | load dd ty a vol => simp [maskInstr, patchInstr, P a (by simp [operands, Instr.uses])]
+  | ret v => simp [maskInstr, patchInstr, P v (by simp [operands, Instr.uses])]
+  | copyblob a b n =>
+    simp [maskInstr, patchInstr, P a (by simp [operands, Instr.uses]), P b (by simp [operands, Instr.uses])]
+  | cjump a c b y n =>
+    simp [maskInstr, patchInstr, P a (by simp [operands, Instr.uses]), P b (by simp [operands, Instr.uses])]
+  | fcall dd ty c args =>
+    have hargs : args.map (patchOpnd d (.loc d) ∘ maskOp D) = args.map (maskOp (d :: D)) :=
+      List.map_congr_left (fun o ho => P o (by simp [operands, Instr.uses, ho]))
+    simp [maskInstr, patchInstr, P c (by simp [operands, Instr.uses]), hargs]
+  | pcall c args =>
+    have hargs : args.map (patchOpnd d (.loc d) ∘ maskOp D) = args.map (maskOp (d :: D)) :=
+      List.map_congr_left (fun o ho => P o (by simp [operands, Instr.uses, ho]))
+    simp [maskInstr, patchInstr, P c (by simp [operands, Instr.uses]), hargs]
+  | phi dd ty ins =>
+    have hins : ins.map ((fun q => (q.1, patchOpnd d (.loc d) q.2)) ∘ (fun q => (q.1, maskOp D q.2))) =
+        ins.map (fun q => (q.1, maskOp (d :: D) q.2)) :=
+      List.map_congr_left (fun q hq => by
+        have := P q.2 (by simp only [operands, List.mem_map]; exact ⟨q, hq, rfl⟩)
+        simp [this])
+    simp [maskInstr, patchInstr, hins]
+  | store ty v a vol =>
+    have hv := P v (by simp [operands, Instr.uses])
+    have ha := P a (by simp [operands, Instr.uses])
+    obtain ⟨hvt, -⟩ : tyOf G env v = some ty ∧ tyOf G env a = some .ptr := by simpa [typedOk] using hty
+    simp only [maskInstr, patchInstr, hv, ha]
+    congr 1
+    cases v with
+    | glob g =>
+      have hg : g ∈ G := ((tyOf_glob G env g ty).1 hvt).1
+      have : ¬ g = d := fun e => hd (e ▸ hg)
+      simp [maskOp, this]
+    | loc x =>
+      by_cases hx : x ∈ D
+      · simp [maskOp, hx]
+      · by_cases hxd : x = d
+        · subst hxd
+          have : T = ty := by
+            have h1 : lookupTy env x = some ty := hvt
+            rw [hT] at h1; exact Option.some.inj h1
+          simp [maskOp, hx, this]
+        · simp [maskOp, hx, hxd]
+
+theorem maskOp_cons_of_ne (D : List String) (d : String) (o : Operand) (h : o ≠ .loc d) :
+    maskOp (d :: D) o = maskOp D o := by
+  cases o with
+  | glob g => rfl
+  | loc x =>
+    have : ¬ x = d := fun e => h (e ▸ rfl)
+    simp [maskOp, this]
+
+/-- an instruction that does not mention the new value is recorded as before -/
+theorem maskInstr_cons_of_unused (D : List String) (d : String) (i : Instr)
+    (h : ∀ o ∈ operands i, o ≠ .loc d) : maskInstr (d :: D) i = maskInstr D i := by
+  have P := fun o (ho : o ∈ operands i) => maskOp_cons_of_ne D d o (h o ho)
+  cases i with
+  | const _ _ _ => rfl
+  | undefined _ _ => rfl
+  | literal _ _ => rfl
+  | alloc _ _ _ => rfl
+  | exit => rfl
+  | jump _ => rfl
+  | asm _ _ _ _ => rfl
+  | addrof dd s => simp [maskInstr, P s (by simp [operands, Instr.uses])]
+  | binop dd ty op a b =>
+    simp [maskInstr, P a (by simp [operands, Instr.uses]), P b (by simp [operands, Instr.uses])]
+  | unop dd ty op a => simp [maskInstr, P a (by simp [operands, Instr.uses])]
+  | cast dd ty a => simp [maskInstr, P a (by simp [operands, Instr.uses])]
+  | load dd ty a vol => simp [maskInstr, P a (by simp [operands, Instr.uses])]
+  | ret v => simp [maskInstr, P v (by simp [operands, Instr.uses])]
+  | copyblob a b n =>
+    simp [maskInstr, P a (by simp [operands, Instr.uses]), P b (by simp [operands, Instr.uses])]
+  | cjump a c b y n =>
+    simp [maskInstr, P a (by simp [operands, Instr.uses]), P b (by simp [operands, Instr.uses])]
+  | store ty v a vol =>
+    simp [maskInstr, P v (by simp [operands, Instr.uses]), P a (by simp [operands, Instr.uses])]
+  | fcall dd ty c args =>
+    have hargs : args.map (maskOp (d :: D)) = args.map (maskOp D) :=
+      List.map_congr_left (fun o ho => P o (by simp [operands, Instr.uses, ho]))
+    simp [maskInstr, P c (by simp [operands, Instr.uses]), hargs]
+  | pcall c args =>
+    have hargs : args.map (maskOp (d :: D)) = args.map (maskOp D) :=
+      List.map_congr_left (fun o ho => P o (by simp [operands, Instr.uses, ho]))
+    simp [maskInstr, P c (by simp [operands, Instr.uses]), hargs]
+  | phi dd ty ins =>
+    have hins : ins.map (fun q => (q.1, maskOp (d :: D) q.2)) = ins.map (fun q => (q.1, maskOp D q.2)) :=
+      List.map_congr_left (fun q hq => by
+        have := P q.2 (by simp only [operands, List.mem_map]; exact ⟨q, hq, rfl⟩)
+        simp [this])
+    simp [maskInstr, hins]
+
+/-- a finished instruction whose module-level operands are real module-level names is not touched when
+    a function-level value named `d` (not a module-level name) replaces its placeholder -/
+theorem patchInstr_of_globOk {G : List String} (d : String) (to : Operand) (T : Ty) (hd : d ∉ G) (i : Instr)
+    (h : ∀ o ∈ operands i, ∀ g, o = .glob g → g ∈ G) : patchInstr d to T i = i := by
+  have P : ∀ o ∈ operands i, patchOpnd d to o = o := by
+    intro o ho
+    cases o with
+    | loc x => rfl
+    | glob g =>
+      have : ¬ g = d := fun e => hd (e ▸ h _ ho g rfl)
+      simp [patchOpnd, this]
+  cases i with
+  | const _ _ _ => rfl
+  | undefined _ _ => rfl
+  | literal _ _ => rfl
+  | alloc _ _ _ => rfl
+  | exit => rfl
+  | jump _ => rfl
+  | asm tpl ins outs cl =>
+    have h1 : ins.map (patchOpnd d to) = ins := by
+      conv => rhs; rw [← List.map_id ins]
+      exact List.map_congr_left (fun o ho => P o (by simp [operands, Instr.uses, ho]))
+    have h2 : outs.map (patchOpnd d to) = outs := by
+      conv => rhs; rw [← List.map_id outs]
+      exact List.map_congr_left (fun o ho => P o (by simp [operands, Instr.uses, ho]))
+    simp [patchInstr, h1, h2]
+  | addrof dd s => simp [patchInstr, P s (by simp [operands, Instr.uses])]
+  | binop dd ty op a b =>
+    simp [patchInstr, P a (by simp [operands, Instr.uses]), P b (by simp [operands, Instr.uses])]
+  | unop dd ty op a => simp [patchInstr, P a (by simp [operands, Instr.uses])]
+  | cast dd ty a => simp [patchInstr, P a (by simp [operands, Instr.uses])]
+  | load dd ty a vol => simp [patchInstr, P a (by simp [operands, Instr.uses])]
+  | ret v => simp [patchInstr, P v (by simp [operands, Instr.uses])]
+  | copyblob a b n =>
+    simp [patchInstr, P a (by simp [operands, Instr.uses]), P b (by simp [operands, Instr.uses])]
+  | cjump a c b y n =>
+    simp [patchInstr, P a (by simp [operands, Instr.uses]), P b (by simp [operands, Instr.uses])]
+  | store ty v a vol =>
+    have hv : v ≠ .glob d := by
+      intro e
+      exact hd (h v (by simp [operands, Instr.uses]) d e)
+    simp [patchInstr, P v (by simp [operands, Instr.uses]), P a (by simp [operands, Instr.uses]), hv]
+  | fcall dd ty c args =>
+    have hargs : args.map (patchOpnd d to) = args := by
+      conv => rhs; rw [← List.map_id args]
+      exact List.map_congr_left (fun o ho => P o (by simp [operands, Instr.uses, ho]))
+    simp [patchInstr, P c (by simp [operands, Instr.uses]), hargs]
+  | pcall c args =>
+    have hargs : args.map (patchOpnd d to) = args := by
+      conv => rhs; rw [← List.map_id args]
+      exact List.map_congr_left (fun o ho => P o (by simp [operands, Instr.uses, ho]))
+    simp [patchInstr, P c (by simp [operands, Instr.uses]), hargs]
+  | phi dd ty ins =>
+    have hins : ins.map (fun q => (q.1, patchOpnd d to q.2)) = ins := by
+      conv => rhs; rw [← List.map_id ins]
+      exact List.map_congr_left (fun q hq => by
+        have := P q.2 (by simp only [operands, List.mem_map]; exact ⟨q, hq, rfl⟩)
+        simp [this])
+    simp [patchInstr, hins]
+
+/-- the module-level operands of a finished function are module-level names -/
+def globOk (G : List String) (i : Instr) : Prop := ∀ o ∈ operands i, ∀ g, o = .glob g → g ∈ G
+
+/-- a stored module-level value (an address) is recorded with type `ptr` -/
+def storeOk (i : Instr) : Prop := ∀ ty g a vol, i = .store ty (.glob g) a vol → ty = .ptr
+
+def funcGlobOk (G : List String) (f : Func) : Prop := ∀ b ∈ f.blocks, ∀ i ∈ b.instrs, globOk G i ∧ storeOk i
+
+theorem patchFunc_of_globOk {G : List String} (d : String) (to : Operand) (T : Ty) (hd : d ∉ G) (f : Func)
+    (h : funcGlobOk G f) : patchFunc d to T f = f := by
+  cases f with
+  | mk name isGlobal ret entry params blocks =>
+    simp only [patchFunc]
+    congr 1
+    conv => rhs; rw [← List.map_id blocks]
+    apply List.map_congr_left
+    intro b hb
+    cases b with
+    | mk bn is =>
+      simp only [patchBlock, id]
+      congr 1
+      conv => rhs; rw [← List.map_id is]
+      apply List.map_congr_left
+      intro i hi
+      exact patchInstr_of_globOk d to T hd i (h _ hb i hi).1
+
+/-- what is known about the instructions recorded so far -/
+structure Recd (G : List String) (env : TyEnv) (funcsDone : List Func) (D : List String)
+    (blocksDone : List Block) (curDone : List Instr) (st : BState) : Prop where
+  inv : Inv G env D st
+  cur : st.cur = curDone.map (maskInstr D)
+  blocks : st.blocks = blocksDone.map (maskBlock D)
+  funcs : st.funcs = funcsDone
+  fwd : ∀ j, j ∈ blocksDone.flatMap (·.instrs) ++ curDone → ∀ o ∈ operands j, ∀ x, o = .loc x → x ∉ D →
+    (lookupTy st.pending x).isSome = true
+
+theorem define_spec {G : List String} {env : TyEnv} {funcsDone : List Func} {D : List String}
+    {blocksDone : List Block} {curDone : List Instr} {st : BState}
+    (h : Recd G env funcsDone D blocksDone curDone st) (hdisj : ∀ x, x ∈ env.map (·.1) → x ∉ G)
+    (hfuncs : ∀ f ∈ funcsDone, funcGlobOk G f)
+    (hprev : ∀ j, j ∈ blocksDone.flatMap (·.instrs) ++ curDone → opsOk G env j ∧ typedOk G env j = true)
+    (d : String) (T : Ty) (hT : lookupTy env d = some T) (hD : d ∉ D) :
+    ∃ st2, defineLocal st d T = .ok st2 ∧ Recd G env funcsDone (d :: D) blocksDone curDone st2 ∧
+      st2.defined = st.defined ∧ st2.blockRefs = st.blockRefs ∧ st2.blockDefs = st.blockDefs ∧
+      st2.curName = st.curName ∧ st2.json = st.json ∧
+      (∀ x, lookupTy st2.pending x = if x = d then none else lookupTy st.pending x) ∧
+      st2.globals = st.globals := by
+  have hdenv : d ∈ env.map (·.1) := (lookupTy_isSome_iff env d).1 (by simp [hT])
+  have hdG : d ∉ G := hdisj d hdenv
+  have hloc : lookupTy st.locals d = none := by rw [h.inv.locs d]; simp [hD]
+  -- the new invariant, given the new placeholder dictionary
+  have newInv : ∀ (st2 : BState), st2.globals = st.globals → st2.locals = (d, T) :: st.locals →
+      (∀ x, lookupTy st2.pending x = if x = d then none else lookupTy st.pending x) →
+      Inv G env (d :: D) st2 := by
+    intro st2 hg hl hp
+    refine ⟨?_, ?_, ?_⟩
+    · intro g hgm; rw [hg] at hgm; exact h.inv.globs g hgm
+    · intro x
+      rw [hl, lookupTy_cons, h.inv.locs x]
+      by_cases hx : x = d
+      · subst hx; simp [hT]
+      · simp [hx]
+    · intro x t hx
+      rw [hp x] at hx
+      by_cases hxd : x = d
+      · simp [hxd] at hx
+      · simp only [hxd, if_false] at hx
+        rcases h.inv.pend x t hx with ⟨h1, h2, h3⟩ | ⟨h1, h2⟩
+        · exact Or.inl ⟨h1, by rw [hg]; exact h2, h3⟩
+        · exact Or.inr ⟨by simp [hxd, h1], h2⟩
+  have newFwd : ∀ (st2 : BState), (∀ x, lookupTy st2.pending x = if x = d then none else lookupTy st.pending x) →
+      ∀ j, j ∈ blocksDone.flatMap (·.instrs) ++ curDone → ∀ o ∈ operands j, ∀ x, o = .loc x → x ∉ d :: D →
+        (lookupTy st2.pending x).isSome = true := by
+    intro st2 hp j hj o ho x hx hxD
+    have hxd : ¬ x = d := fun e => hxD (by simp [e])
+    have hxD' : x ∉ D := fun e => hxD (by simp [e])
+    rw [hp x]; simp only [hxd, if_false]
+    exact h.fwd j hj o ho x hx hxD'
+  by_cases hit : (lookupTy st.pending d).isSome = true
+  · -- the value was referenced before: replace the placeholder everywhere
+    have hcur : st.cur.map (patchInstr d (.loc d) T) = curDone.map (maskInstr (d :: D)) := by
+      rw [h.cur, List.map_map]
+      apply List.map_congr_left
+      intro j hj
+      have := hprev j (by simp [hj])
+      exact patchInstr_maskInstr D d T hdG hT j this.1 this.2
+    have hblocks : st.blocks.map (patchBlock d (.loc d) T) = blocksDone.map (maskBlock (d :: D)) := by
+      rw [h.blocks, List.map_map]
+      apply List.map_congr_left
+      intro b hb
+      simp only [Function.comp, patchBlock, maskBlock, List.map_map]
+      congr 1
+      apply List.map_congr_left
+      intro j hj
+      have := hprev j (by
+        simp only [List.mem_append, List.mem_flatMap]
+        exact Or.inl ⟨b, hb, hj⟩)
+      exact patchInstr_maskInstr D d T hdG hT j this.1 this.2
+    have hfs : st.funcs.map (patchFunc d (.loc ("!dangling!" ++ d)) T) = funcsDone := by
+      rw [h.funcs]
+      conv => rhs; rw [← List.map_id funcsDone]
+      apply List.map_congr_left
+      intro f hf
+      exact patchFunc_of_globOk d _ T hdG f (hfuncs f hf)
+    refine ⟨{ (patchAll st d true T) with locals := (d, T) :: st.locals }, ?_, ?_, rfl, rfl, rfl, rfl, rfl, ?_, rfl⟩
+    · simp [defineLocal, hit, patchAll, hloc]
+    · have hp : ∀ x, lookupTy (eraseKey st.pending d) x = if x = d then none else lookupTy st.pending x :=
+        fun x => lookupTy_eraseKey st.pending d x
+      refine ⟨newInv _ rfl rfl hp, ?_, ?_, ?_, newFwd _ hp⟩
+      · simpa [patchAll] using hcur
+      · simpa [patchAll] using hblocks
+      · simpa [patchAll] using hfs
+    · intro x; exact lookupTy_eraseKey st.pending d x
+  · -- never referenced so far
+    have hnone : lookupTy st.pending d = none := by
+      cases hq : lookupTy st.pending d with
+      | none => rfl
+      | some t => simp [hq] at hit
+    have hunused : ∀ j, j ∈ blocksDone.flatMap (·.instrs) ++ curDone → ∀ o ∈ operands j, o ≠ .loc d := by
+      intro j hj o ho e
+      have := h.fwd j hj o ho d e hD
+      simp [hnone] at this
+    have hp : ∀ x, lookupTy st.pending x = if x = d then none else lookupTy st.pending x := by
+      intro x
+      by_cases hx : x = d
+      · subst hx; simp [hnone]
+      · simp [hx]
+    refine ⟨{ st with locals := (d, T) :: st.locals }, ?_, ?_, rfl, rfl, rfl, rfl, rfl, hp, rfl⟩
+    · simp [defineLocal, hit, hloc]
+    · refine ⟨newInv _ rfl rfl hp, ?_, ?_, h.funcs, newFwd _ hp⟩
+      · show st.cur = _
+        rw [h.cur]
+        apply List.map_congr_left
+        intro j hj
+        exact (maskInstr_cons_of_unused D d j (hunused j (by simp [hj]))).symm
+      · show st.blocks = _
+        rw [h.blocks]
+        apply List.map_congr_left
+        intro b hb
+        simp only [maskBlock]
+        congr 1
+        apply List.map_congr_left
+        intro j hj
+        exact (maskInstr_cons_of_unused D d j (hunused j (by
+          simp only [List.mem_append, List.mem_flatMap]
+          exact Or.inl ⟨b, hb, hj⟩))).symm
+
+/-! ## one instruction: `feed` then `append` -/
+
+/-- the invariant of a function body between two instructions -/
+structure FInv (gs : List String) (G : List String) (env : TyEnv) (bnames : List String) (funcsDone : List Func)
+    (D : List String) (blocksDone : List Block) (curDone : List Instr) (begun inDef : List String)
+    (st : BState) : Prop where
+  recd : Recd G env funcsDone D blocksDone curDone st
+  geq : st.globals = gs
+  defd : ∀ n, n ∈ st.defined →
+    n ∈ inDef ∨ n ∈ (instrDsts (blocksDone.flatMap (·.instrs) ++ curDone)).map (·.1)
+  refs : ∀ b, b ∈ st.blockRefs → b ∈ bnames
+  bdefs : ∀ n, n ∈ st.blockDefs ↔ n ∈ begun
+
+def newD (D : List String) (i : Instr) : List String :=
+  match i.dst? with
+  | some (d, _) => d :: D
+  | none => D
+
+theorem instrDsts_append (a b : List Instr) : instrDsts (a ++ b) = instrDsts a ++ instrDsts b := by
+  simp [instrDsts, List.filterMap_append]
+
+theorem Inv_congr {G : List String} {env : TyEnv} {D : List String} {a b : BState}
+    (h : Inv G env D a) (hg : b.globals = a.globals) (hl : b.locals = a.locals) (hp : b.pending = a.pending) :
+    Inv G env D b :=
+  ⟨fun g hm => h.globs g (hg ▸ hm), fun x => by rw [hl]; exact h.locs x,
+   fun x t hx => by
+     rw [hp] at hx
+     rcases h.pend x t hx with ⟨h1, h2, h3⟩ | h'
+     · exact Or.inl ⟨h1, by rw [hg]; exact h2, h3⟩
+     · exact Or.inr h'⟩
+
+theorem step_spec {gs : List String} {G : List String} {env : TyEnv} {bnames : List String} {funcsDone : List Func}
+    {D : List String} {blocksDone : List Block} {curDone : List Instr} {begun inDef : List String} {st : BState}
+    (hF : FInv gs G env bnames funcsDone D blocksDone curDone begun inDef st)
+    (hdisj : ∀ x, x ∈ env.map (·.1) → x ∉ G) (hfuncs : ∀ f ∈ funcsDone, funcGlobOk G f)
+    (hprev : ∀ j, j ∈ blocksDone.flatMap (·.instrs) ++ curDone → opsOk G env j ∧ typedOk G env j = true)
+    (i : Instr) (hops : opsOk G env i) (hty : typedOk G env i = true)
+    (hphi : nodupB (i.phiIns.map (·.1)) = true) (hrefs : ∀ b, b ∈ blockRefsOf i → b ∈ bnames)
+    (hlast : ∀ j, curDone.getLast? = some j → j.isTerminator = false)
+    (hdst : ∀ d T, i.dst? = some (d, T) → lookupTy env d = some T ∧ d ∉ D ∧ d ∉ inDef ∧
+      d ∉ (instrDsts (blocksDone.flatMap (·.instrs) ++ curDone)).map (·.1)) :
+    ∃ s1 i' st', feed st (eraseInstr i) = .ok (s1, i') ∧ append s1 i' = .ok st' ∧
+      FInv gs G env bnames funcsDone (newD D i) blocksDone (curDone ++ [i]) begun inDef st' ∧
+      st'.curName = st.curName ∧ st'.json = st.json := by
+  obtain ⟨p', r', eb, inv1, fwdi, mono, refs'⟩ :=
+    build_spec (st := st) (p := st.pending) (r := st.blockRefs) hF.recd.inv hdisj i hops hty hphi
+  have eb' : build st (eraseInstr i) = .ok (withPR st p' r', maskInstr D i) := eb
+  have hlastB : ∀ (DD : List String), ((curDone.map (maskInstr DD)).getLast?.map Instr.isTerminator).getD false = false := by
+    intro DD
+    rw [List.getLast?_map]
+    cases hq : curDone.getLast? with
+    | none => rfl
+    | some j => simp [isTerminator_maskInstr, hlast j hq]
+  have refsOk : ∀ b, b ∈ r' → b ∈ bnames := by
+    intro b hb
+    rcases refs' b hb with h1 | h1
+    · exact hF.refs b h1
+    · exact hrefs b h1
+  cases hd : i.dst? with
+  | none =>
+    refine ⟨withPR st p' r', maskInstr D i, { (withPR st p' r') with cur := st.cur ++ [maskInstr D i] }, ?_, ?_, ?_, rfl, rfl⟩
+    · simp [feed, eb', dst_maskInstr, hd, bind, Except.bind, pure, Except.pure]
+    · have := hlastB D
+      rw [← hF.recd.cur] at this
+      simp [append, dst_maskInstr, hd, this]
+    · have hD : newD D i = D := by simp [newD, hd]
+      rw [hD]
+      refine ⟨⟨Inv_congr inv1 rfl rfl rfl, ?_, hF.recd.blocks, hF.recd.funcs, ?_⟩, hF.geq, ?_, refsOk, hF.bdefs⟩
+      · show st.cur ++ [maskInstr D i] = _
+        rw [hF.recd.cur]; simp
+      · intro j hj o ho x hx hxD
+        show (lookupTy p' x).isSome = true
+        rw [← List.append_assoc] at hj
+        rcases List.mem_append.1 hj with hj | hj
+        · exact mono x (hF.recd.fwd j hj o ho x hx hxD)
+        · simp at hj; subst hj; exact fwdi o ho x hx hxD
+      · intro n hn
+        rcases hF.defd n hn with h1 | h1
+        · exact Or.inl h1
+        · refine Or.inr ?_
+          rw [← List.append_assoc, instrDsts_append]
+          simp [h1]
+  | some dt =>
+    obtain ⟨d, T⟩ := dt
+    obtain ⟨hT, hDd, hbeg, hdsts⟩ := hdst d T hd
+    have recd1 : Recd G env funcsDone D blocksDone curDone (withPR st p' r') :=
+      ⟨inv1, hF.recd.cur, hF.recd.blocks, hF.recd.funcs,
+       fun j hj o ho x hx hxD => mono x (hF.recd.fwd j hj o ho x hx hxD)⟩
+    obtain ⟨st2, edef, recd2, hdef2, hrefs2, hbd2, hcn2, hjs2, hpend2, hgl2⟩ :=
+      define_spec recd1 hdisj hfuncs hprev d T hT hDd
+    have hi' : (if (lookupTy p' d).isSome = true then patchInstr d (.loc d) T (maskInstr D i) else maskInstr D i) =
+        maskInstr (d :: D) i := by
+      by_cases hit : (lookupTy p' d).isSome = true
+      · have hdG : d ∉ G := hdisj d ((lookupTy_isSome_iff env d).1 (by simp [hT]))
+        simp only [hit, if_true]
+        exact patchInstr_maskInstr D d T hdG hT i hops hty
+      · simp only [hit, if_false]
+        refine (maskInstr_cons_of_unused D d i ?_).symm
+        intro o ho e
+        exact hit (fwdi o ho d e hDd)
+    refine ⟨st2, maskInstr (d :: D) i,
+      { st2 with cur := st2.cur ++ [maskInstr (d :: D) i], defined := d :: st2.defined }, ?_, ?_, ?_, ?_, ?_⟩
+    · have : (withPR st p' r').pending = p' := rfl
+      simp only [feed, eb', dst_maskInstr, hd, bind, Except.bind, this, edef, pure, Except.pure, hi']
+    · have h1 := hlastB (d :: D)
+      rw [← recd2.cur] at h1
+      have h2 : d ∉ st2.defined := by
+        rw [hdef2]
+        intro hm
+        rcases hF.defd d hm with h' | h'
+        · exact hbeg h'
+        · exact hdsts h'
+      simp [append, dst_maskInstr, hd, h1, h2]
+    · have hD : newD D i = d :: D := by simp [newD, hd]
+      rw [hD]
+      have hgeq2 : st2.globals = gs := by rw [hgl2]; exact hF.geq
+      refine ⟨⟨Inv_congr recd2.inv rfl rfl rfl, ?_, recd2.blocks, recd2.funcs, ?_⟩, hgeq2, ?_, ?_, ?_⟩
+      · show st2.cur ++ [maskInstr (d :: D) i] = _
+        rw [recd2.cur]; simp
+      · intro j hj o ho x hx hxD
+        show (lookupTy st2.pending x).isSome = true
+        rw [← List.append_assoc] at hj
+        rcases List.mem_append.1 hj with hj | hj
+        · exact recd2.fwd j hj o ho x hx hxD
+        · simp at hj; subst hj
+          have hxd : ¬ x = d := fun e => hxD (by simp [e])
+          have hxD' : x ∉ D := fun e => hxD (by simp [e])
+          rw [hpend2 x]; simp only [hxd, if_false]
+          exact fwdi o ho x hx hxD'
+      · intro n hn
+        show n ∈ inDef ∨ _
+        have hn' : n = d ∨ n ∈ st.defined := by
+          have : n ∈ d :: st2.defined := hn
+          rw [hdef2] at this
+          simpa using this
+        rw [← List.append_assoc, instrDsts_append]
+        rcases hn' with rfl | hn'
+        · refine Or.inr ?_
+          simp [instrDsts, hd]
+        · rcases hF.defd n hn' with h1 | h1
+          · exact Or.inl h1
+          · exact Or.inr (by simp [h1])
+      · intro b hb
+        have : b ∈ st2.blockRefs := hb
+        rw [hrefs2] at this
+        exact refsOk b this
+      · intro n
+        show n ∈ st2.blockDefs ↔ _
+        rw [hbd2]; exact hF.bdefs n
+    · exact hcn2
+    · exact hjs2
+
+/-! ## the builder programs both readers run (after their syntax is peeled off) -/
+
+def feedApp (st : BState) (i : Instr) : Except RErr BState :=
+  match feed st (eraseInstr i) with
+  | .error e => .error e
+  | .ok (s1, i') => append s1 i'
+
+def feedAll : BState → List Instr → Except RErr BState
+  | st, [] => .ok st
+  | st, i :: r =>
+    match feedApp st i with
+    | .error e => .error e
+    | .ok s => feedAll s r
+
+theorem nodupB_iff (l : List String) : nodupB l = true ↔ l.Nodup := by
+  induction l with
+  | nil => simp [nodupB]
+  | cons x r ih => simp [nodupB, ih, List.nodup_cons]
+
+theorem noEarlyTerminator_cons2 (a b : Instr) (r : List Instr) :
+    noEarlyTerminator (a :: b :: r) = (!a.isTerminator && noEarlyTerminator (b :: r)) := rfl
+
+theorem noEarlyTerminator_mid (l r : List Instr) (j i : Instr)
+    (h : noEarlyTerminator (l ++ j :: i :: r) = true) : j.isTerminator = false := by
+  induction l with
+  | nil =>
+    simp only [List.nil_append, noEarlyTerminator_cons2, Bool.and_eq_true, Bool.not_eq_true'] at h
+    exact h.1
+  | cons a t ih =>
+    cases t with
+    | nil =>
+      simp only [List.cons_append, List.nil_append, noEarlyTerminator_cons2, Bool.and_eq_true] at h
+      exact ih (by simpa [noEarlyTerminator_cons2] using h.2)
+    | cons b t' =>
+      simp only [List.cons_append, noEarlyTerminator_cons2, Bool.and_eq_true] at h
+      exact ih (by simpa using h.2)
+
+/-- per-instruction side conditions of the fragment -/
+structure IOk (G : List String) (env : TyEnv) (bnames : List String) (i : Instr) : Prop where
+  ops : opsOk G env i
+  ty : typedOk G env i = true
+  phi : nodupB (i.phiIns.map (·.1)) = true
+  refs : ∀ b, b ∈ blockRefsOf i → b ∈ bnames
+  dstb : ∀ d T, i.dst? = some (d, T) → d ∉ bnames
+
+theorem feedAll_spec {gs : List String} {G : List String} {env : TyEnv} {bnames : List String} {funcsDone : List Func}
+    {blocksDone : List Block} {begun inDef : List String}
+    (hdisj : ∀ x, x ∈ env.map (·.1) → x ∉ G) (hfuncs : ∀ f ∈ funcsDone, funcGlobOk G f)
+    (hnd : (env.map (·.1)).Nodup) (hbegun : ∀ x, x ∈ inDef → x ∈ bnames) (post : TyEnv) :
+    ∀ (rest : List Instr) (curDone : List Instr) (D : List String) (pre : TyEnv) (st : BState),
+      FInv gs G env bnames funcsDone D blocksDone curDone begun inDef st →
+      (∀ x, x ∈ D ↔ x ∈ pre.map (·.1)) →
+      env = pre ++ instrDsts rest ++ post →
+      (∀ x, x ∈ (instrDsts (blocksDone.flatMap (·.instrs) ++ curDone)).map (·.1) → x ∈ pre.map (·.1)) →
+      (∀ j, j ∈ blocksDone.flatMap (·.instrs) ++ curDone → opsOk G env j ∧ typedOk G env j = true) →
+      (∀ i, i ∈ rest → IOk G env bnames i) →
+      noEarlyTerminator (curDone ++ rest) = true →
+      ∃ st' D', feedAll st rest = .ok st' ∧
+        FInv gs G env bnames funcsDone D' blocksDone (curDone ++ rest) begun inDef st' ∧
+        (∀ x, x ∈ D' ↔ x ∈ (pre ++ instrDsts rest).map (·.1)) ∧
+        st'.curName = st.curName ∧ st'.json = st.json := by
+  intro rest
+  induction rest with
+  | nil =>
+    intro curDone D pre st hF hD _ _ _ _ _
+    exact ⟨st, D, rfl, by simpa using hF, by simpa [instrDsts] using hD, rfl, rfl⟩
+  | cons i rest ih =>
+    intro curDone D pre st hF hD henv hdone hprev hrest hne
+    have hi := hrest i (by simp)
+    have hlast : ∀ j, curDone.getLast? = some j → j.isTerminator = false := by
+      intro j hj
+      obtain ⟨l, rfl⟩ : ∃ l, curDone = l ++ [j] := by
+        have := List.getLast?_eq_some_iff.1 hj
+        obtain ⟨l, hl⟩ := this
+        exact ⟨l, hl⟩
+      have : noEarlyTerminator (l ++ j :: i :: rest) = true := by simpa using hne
+      exact noEarlyTerminator_mid l rest j i this
+    have hdst : ∀ d T, i.dst? = some (d, T) → lookupTy env d = some T ∧ d ∉ D ∧ d ∉ inDef ∧
+        d ∉ (instrDsts (blocksDone.flatMap (·.instrs) ++ curDone)).map (·.1) := by
+      intro d T hd
+      have hsplit : env = pre ++ (d, T) :: (instrDsts rest ++ post) := by
+        rw [henv]; simp [instrDsts, hd]
+      have hnd' : (pre.map (·.1) ++ d :: (instrDsts rest ++ post).map (·.1)).Nodup := by
+        rw [hsplit] at hnd; simpa using hnd
+      have hdpre : d ∉ pre.map (·.1) := by
+        have := (List.nodup_append.1 hnd').2.2
+        intro hm
+        exact this d hm d (by simp) rfl
+      refine ⟨?_, ?_, ?_, ?_⟩
+      · rw [hsplit, lookupTy_append, (lookupTy_none_iff pre d).2 hdpre]
+        simp [lookupTy]
+      · intro hm; exact hdpre ((hD d).1 hm)
+      · intro hm; exact hi.dstb d T hd (hbegun d hm)
+      · intro hm; exact hdpre (hdone d hm)
+    obtain ⟨s1, i', st1, e1, e2, hF1, hcn, hjs⟩ :=
+      step_spec hF hdisj hfuncs hprev i hi.ops hi.ty hi.phi hi.refs hlast hdst
+    -- the new set of defined values
+    let pre1 : TyEnv := pre ++ instrDsts [i]
+    have hD1 : ∀ x, x ∈ newD D i ↔ x ∈ pre1.map (·.1) := by
+      intro x
+      cases hd : i.dst? with
+      | none => simp [newD, hd, pre1, instrDsts, hD x]
+      | some dt => obtain ⟨d, T⟩ := dt; simp [newD, hd, pre1, instrDsts, hD x, or_comm]
+    have henv1 : env = pre1 ++ instrDsts rest ++ post := by
+      rw [henv]
+      have : instrDsts (i :: rest) = instrDsts [i] ++ instrDsts rest := instrDsts_append [i] rest
+      rw [this]; simp [pre1]
+    have hdone1 : ∀ x, x ∈ (instrDsts (blocksDone.flatMap (·.instrs) ++ (curDone ++ [i]))).map (·.1) →
+        x ∈ pre1.map (·.1) := by
+      intro x hx
+      rw [← List.append_assoc, instrDsts_append] at hx
+      simp only [List.map_append, List.mem_append] at hx
+      rcases hx with hx | hx
+      · simp [pre1, hdone x hx]
+      · simp [pre1, hx]
+    have hprev1 : ∀ j, j ∈ blocksDone.flatMap (·.instrs) ++ (curDone ++ [i]) →
+        opsOk G env j ∧ typedOk G env j = true := by
+      intro j hj
+      rw [← List.append_assoc] at hj
+      rcases List.mem_append.1 hj with hj | hj
+      · exact hprev j hj
+      · simp at hj; subst hj; exact ⟨hi.ops, hi.ty⟩
+    obtain ⟨st', D', e3, hF', hD', hcn', hjs'⟩ :=
+      ih (curDone ++ [i]) (newD D i) pre1 st1 hF1 hD1 henv1 hdone1 hprev1
+        (fun j hj => hrest j (by simp [hj])) (by simpa using hne)
+    refine ⟨st', D', ?_, by simpa using hF', ?_, hcn'.trans hcn, hjs'.trans hjs⟩
+    · simp [feedAll, feedApp, e1, e2, e3]
+    · intro x
+      rw [hD' x]
+      have : instrDsts (i :: rest) = instrDsts [i] ++ instrDsts rest := instrDsts_append [i] rest
+      rw [this]; simp [pre1]
+
+/-! ## blocks -/
+
+def blockText (st : BState) (b : Block) : Except RErr BState :=
+  match beginBlockText st b.name with
+  | .error e => .error e
+  | .ok s =>
+    match feedAll s b.instrs with
+    | .error e => .error e
+    | .ok s' => .ok (endBlockText s')
+
+def blockJson (st : BState) (b : Block) : Except RErr BState :=
+  match beginBlockJson st b.name with
+  | .error e => .error e
+  | .ok s =>
+    match feedAll s b.instrs with
+    | .error e => .error e
+    | .ok s' => endBlockJson s'
+
+def bnamesOf (bs : List Block) : List String := bs.map (·.name)
+def instrsOf (bs : List Block) : List Instr := bs.flatMap (·.instrs)
+
+/-- what a block-level builder has to do (both readers' block routines do) -/
+def BlkSpec (blk : BState → Block → Except RErr BState) : Prop :=
+  ∀ {gs : List String} {G : List String} {env : TyEnv} {bnames : List String} {funcsDone : List Func}
+    (_hdisj : ∀ x, x ∈ env.map (·.1) → x ∉ G) (_hfuncs : ∀ f ∈ funcsDone, funcGlobOk G f)
+    (_hnd : (env.map (·.1)).Nodup) (post : TyEnv)
+    (blocksDone : List Block) (b : Block) (D : List String) (pre : TyEnv) (st : BState),
+    FInv gs G env bnames funcsDone D blocksDone [] (bnamesOf blocksDone) (bnamesOf blocksDone) st →
+    (∀ x, x ∈ D ↔ x ∈ pre.map (·.1)) →
+    env = pre ++ instrDsts b.instrs ++ post →
+    (∀ x, x ∈ (instrDsts (instrsOf blocksDone)).map (·.1) → x ∈ pre.map (·.1)) →
+    (∀ j, j ∈ instrsOf blocksDone → opsOk G env j ∧ typedOk G env j = true) →
+    (∀ i, i ∈ b.instrs → IOk G env bnames i) →
+    noEarlyTerminator b.instrs = true →
+    (∀ x, x ∈ bnamesOf blocksDone → x ∈ bnames) → b.name ∈ bnames → b.name ∉ bnamesOf blocksDone →
+    b.name ∉ (instrDsts (instrsOf blocksDone ++ b.instrs)).map (·.1) →
+    ∃ st' D', blk st b = .ok st' ∧
+      FInv gs G env bnames funcsDone D' (blocksDone ++ [b]) [] (bnamesOf (blocksDone ++ [b]))
+        (bnamesOf (blocksDone ++ [b])) st' ∧
+      (∀ x, x ∈ D' ↔ x ∈ (pre ++ instrDsts b.instrs).map (·.1)) ∧ st'.json = st.json
+
+theorem Recd_congr {G : List String} {env : TyEnv} {funcsDone : List Func} {D : List String}
+    {blocksDone blocksDone' : List Block} {curDone curDone' : List Instr} {a b : BState}
+    (h : Recd G env funcsDone D blocksDone curDone a)
+    (hg : b.globals = a.globals) (hl : b.locals = a.locals) (hp : b.pending = a.pending)
+    (hc : b.cur = curDone'.map (maskInstr D)) (hb : b.blocks = blocksDone'.map (maskBlock D))
+    (hf : b.funcs = a.funcs)
+    (hmem : ∀ j, j ∈ blocksDone'.flatMap (·.instrs) ++ curDone' → j ∈ blocksDone.flatMap (·.instrs) ++ curDone) :
+    Recd G env funcsDone D blocksDone' curDone' b :=
+  ⟨Inv_congr h.inv hg hl hp, hc, hb, hf ▸ h.funcs,
+   fun j hj o ho x hx hxD => by rw [hp]; exact h.fwd j (hmem j hj) o ho x hx hxD⟩
+
+theorem blockText_spec : BlkSpec blockText := by
+  intro gs G env bnames funcsDone hdisj hfuncs hnd post blocksDone b D pre st hF hD henv hdone hprev hb hne hbn hname hfresh hnodst
+  -- begin
+  have hbr0 : blockRef st b.name = withPR st st.pending (addRef st.blockRefs b.name) := blockRef_withPR st _ _ _
+  have hnotdef : b.name ∉ (blockRef st b.name).defined := by
+    rw [hbr0]; show b.name ∉ st.defined
+    intro hm
+    rcases hF.defd _ hm with h1 | h1
+    · exact hfresh h1
+    · apply hnodst
+      simp only [List.append_nil] at h1
+      rw [instrDsts_append]; simp [instrsOf, h1]
+  have hnotbd : b.name ∉ (blockRef st b.name).blockDefs := by
+    rw [hbr0]; show b.name ∉ st.blockDefs
+    intro hm; exact hfresh ((hF.bdefs _).1 hm)
+  let s0 : BState := { (blockRef st b.name) with
+    blockDefs := b.name :: (blockRef st b.name).blockDefs, defined := b.name :: (blockRef st b.name).defined,
+    curName := b.name, cur := [] }
+  have e0 : beginBlockText st b.name = .ok s0 := by
+    simp [beginBlockText, hnotdef, hnotbd, s0]
+  have hrefsub : ∀ x, x ∈ (blockRef st b.name).blockRefs → x ∈ bnames := by
+    intro x hx
+    have : blockRef st b.name = withPR st st.pending (addRef st.blockRefs b.name) := blockRef_withPR st _ _ _
+    rw [this] at hx
+    rcases mem_addRef hx with h1 | rfl
+    · exact hF.refs x h1
+    · exact hname
+  have hF0 : FInv gs G env bnames funcsDone D blocksDone [] (bnamesOf (blocksDone ++ [b]))
+      (bnamesOf (blocksDone ++ [b])) s0 := by
+    have hbr : blockRef st b.name = withPR st st.pending (addRef st.blockRefs b.name) := blockRef_withPR st _ _ _
+    refine ⟨Recd_congr hF.recd ?_ ?_ ?_ rfl ?_ ?_ (fun j hj => hj), ?_, ?_, hrefsub, ?_⟩
+    · simp [s0, hbr]
+    · simp [s0, hbr]
+    · simp [s0, hbr]
+    · simp [s0, hbr, hF.recd.blocks]
+    · simp [s0, hbr]
+    · simp [s0, hbr, hF.geq]
+    · intro n hn
+      have : n = b.name ∨ n ∈ st.defined := by
+        have : n ∈ b.name :: (blockRef st b.name).defined := hn
+        rw [hbr] at this; simpa using this
+      rcases this with rfl | h1
+      · exact Or.inl (by simp [bnamesOf])
+      · rcases hF.defd n h1 with h2 | h2
+        · exact Or.inl (by simp [bnamesOf] at h2 ⊢; exact Or.inl h2)
+        · exact Or.inr h2
+    · intro n
+      show n ∈ b.name :: (blockRef st b.name).blockDefs ↔ _
+      rw [hbr]
+      simp only [withPR_blockDefs, List.mem_cons, bnamesOf, List.map_append, List.map_cons, List.map_nil,
+        List.mem_append, List.mem_singleton]
+      rw [hF.bdefs n]; simp [bnamesOf, or_comm]
+  have hin : ∀ x, x ∈ bnamesOf (blocksDone ++ [b]) → x ∈ bnames := by
+    intro x hx
+    simp only [bnamesOf, List.map_append, List.map_cons, List.map_nil, List.mem_append, List.mem_singleton] at hx
+    rcases hx with h1 | rfl
+    · exact hbn x (by simpa [bnamesOf] using h1)
+    · exact hname
+  obtain ⟨s1, D', e1, hF1, hD1, hcn1, hjs1⟩ :=
+    feedAll_spec hdisj hfuncs hnd hin post b.instrs [] D pre s0 hF0 hD henv
+      (by simpa [instrsOf] using hdone) (by simpa [instrsOf] using hprev) hb (by simpa using hne)
+  have hcn : s1.curName = b.name := hcn1
+  refine ⟨endBlockText s1, D', ?_, ?_, hD1, ?_⟩
+  · simp [blockText, e0, e1]
+  · simp only [List.nil_append] at hF1
+    refine ⟨Recd_congr hF1.recd rfl rfl rfl rfl ?_ rfl ?_, hF1.geq, ?_, hF1.refs, hF1.bdefs⟩
+    · show s1.blocks ++ [{ name := s1.curName, instrs := s1.cur }] = _
+      rw [hF1.recd.blocks, hF1.recd.cur, hcn]
+      simp [maskBlock]
+    · intro j hj; simpa using hj
+    · intro n hn
+      rcases hF1.defd n hn with h1 | h1
+      · exact Or.inl h1
+      · exact Or.inr (by simpa using h1)
+  · show s1.json = st.json
+    rw [hjs1]
+    have : blockRef st b.name = withPR st st.pending (addRef st.blockRefs b.name) := blockRef_withPR st _ _ _
+    simp [s0, this]
+
+theorem blockJson_spec : BlkSpec blockJson := by
+  intro gs G env bnames funcsDone hdisj hfuncs hnd post blocksDone b D pre st hF hD henv hdone hprev hb hne hbn hname hfresh hnodst
+  have hbr : blockRef st b.name = withPR st st.pending (addRef st.blockRefs b.name) := blockRef_withPR st _ _ _
+  have hnotbd : b.name ∉ (blockRef st b.name).blockDefs := by
+    rw [hbr]; show b.name ∉ st.blockDefs
+    intro hm; exact hfresh ((hF.bdefs _).1 hm)
+  let s0 : BState := { (blockRef st b.name) with
+    blockDefs := b.name :: (blockRef st b.name).blockDefs, curName := b.name, cur := [] }
+  have e0 : beginBlockJson st b.name = .ok s0 := by
+    simp [beginBlockJson, hnotbd, s0]
+  have hrefsub : ∀ x, x ∈ (blockRef st b.name).blockRefs → x ∈ bnames := by
+    intro x hx
+    rw [hbr] at hx
+    rcases mem_addRef hx with h1 | rfl
+    · exact hF.refs x h1
+    · exact hname
+  have hF0 : FInv gs G env bnames funcsDone D blocksDone [] (bnamesOf (blocksDone ++ [b]))
+      (bnamesOf blocksDone) s0 := by
+    refine ⟨Recd_congr hF.recd ?_ ?_ ?_ rfl ?_ ?_ (fun j hj => hj), ?_, ?_, hrefsub, ?_⟩
+    · simp [s0, hbr]
+    · simp [s0, hbr]
+    · simp [s0, hbr]
+    · simp [s0, hbr, hF.recd.blocks]
+    · simp [s0, hbr]
+    · simp [s0, hbr, hF.geq]
+    · intro n hn
+      have : n ∈ st.defined := by
+        have : n ∈ (blockRef st b.name).defined := hn
+        rw [hbr] at this; simpa using this
+      exact hF.defd n this
+    · intro n
+      show n ∈ b.name :: (blockRef st b.name).blockDefs ↔ _
+      rw [hbr]
+      simp only [withPR_blockDefs, List.mem_cons, bnamesOf, List.map_append, List.map_cons, List.map_nil,
+        List.mem_append, List.mem_singleton]
+      rw [hF.bdefs n]; simp [bnamesOf, or_comm]
+  obtain ⟨s1, D', e1, hF1, hD1, hcn1, hjs1⟩ :=
+    feedAll_spec hdisj hfuncs hnd hbn post b.instrs [] D pre s0 hF0 hD henv
+      (by simpa [instrsOf] using hdone) (by simpa [instrsOf] using hprev) hb (by simpa using hne)
+  have hcn : s1.curName = b.name := hcn1
+  simp only [List.nil_append] at hF1
+  have hnd1 : b.name ∉ s1.defined := by
+    intro hm
+    rcases hF1.defd _ hm with h1 | h1
+    · exact hfresh h1
+    · exact hnodst (by simpa [instrsOf] using h1)
+  refine ⟨closeBlock { s1 with defined := s1.curName :: s1.defined }, D', ?_, ?_, hD1, ?_⟩
+  · have : s1.curName ∉ s1.defined := by rw [hcn]; exact hnd1
+    simp [blockJson, e0, e1, endBlockJson, this]
+  · refine ⟨Recd_congr hF1.recd rfl rfl rfl rfl ?_ rfl ?_, hF1.geq, ?_, hF1.refs, hF1.bdefs⟩
+    · show s1.blocks ++ [{ name := s1.curName, instrs := s1.cur }] = _
+      rw [hF1.recd.blocks, hF1.recd.cur, hcn]
+      simp [maskBlock]
+    · intro j hj; simpa using hj
+    · intro n hn
+      have : n = s1.curName ∨ n ∈ s1.defined := by
+        have : n ∈ s1.curName :: s1.defined := hn
+        simpa using this
+      rcases this with rfl | h1
+      · exact Or.inl (by simp [bnamesOf, hcn])
+      · rcases hF1.defd n h1 with h2 | h2
+        · exact Or.inl (by simp [bnamesOf] at h2 ⊢; exact Or.inl h2)
+        · exact Or.inr (by simpa using h2)
+  · show s1.json = st.json
+    rw [hjs1]; simp [s0, hbr]
+
+/-! ## all blocks of a function -/
+
+def blocksWith (blk : BState → Block → Except RErr BState) : BState → List Block → Except RErr BState
+  | st, [] => .ok st
+  | st, b :: r =>
+    match blk st b with
+    | .error e => .error e
+    | .ok s => blocksWith blk s r
+
+theorem instrsOf_append (a b : List Block) : instrsOf (a ++ b) = instrsOf a ++ instrsOf b := by
+  simp [instrsOf]
+
+theorem instrsOf_cons (b : Block) (r : List Block) : instrsOf (b :: r) = b.instrs ++ instrsOf r := by
+  simp [instrsOf]
+
+theorem blocksWith_spec {blk : BState → Block → Except RErr BState} (hblk : BlkSpec blk)
+    {gs : List String} {G : List String} {env : TyEnv} {funcsDone : List Func} (allBlocks : List Block)
+    (hdisj : ∀ x, x ∈ env.map (·.1) → x ∉ G) (hfuncs : ∀ f ∈ funcsDone, funcGlobOk G f)
+    (hnd : (env.map (·.1)).Nodup)
+    (hnd2 : (bnamesOf allBlocks ++ (instrDsts (instrsOf allBlocks)).map (·.1)).Nodup)
+    (hok : ∀ b ∈ allBlocks, ∀ i ∈ b.instrs, IOk G env (bnamesOf allBlocks) i)
+    (hne : ∀ b ∈ allBlocks, noEarlyTerminator b.instrs = true) :
+    ∀ (rest : List Block) (blocksDone : List Block) (D : List String) (pre : TyEnv) (st : BState),
+      blocksDone ++ rest = allBlocks →
+      FInv gs G env (bnamesOf allBlocks) funcsDone D blocksDone [] (bnamesOf blocksDone) (bnamesOf blocksDone) st →
+      (∀ x, x ∈ D ↔ x ∈ pre.map (·.1)) →
+      env = pre ++ instrDsts (instrsOf rest) →
+      (∀ x, x ∈ (instrDsts (instrsOf blocksDone)).map (·.1) → x ∈ pre.map (·.1)) →
+      ∃ st' D', blocksWith blk st rest = .ok st' ∧
+        FInv gs G env (bnamesOf allBlocks) funcsDone D' allBlocks [] (bnamesOf allBlocks) (bnamesOf allBlocks) st' ∧
+        (∀ x, x ∈ D' ↔ x ∈ env.map (·.1)) ∧ st'.json = st.json := by
+  intro rest
+  induction rest with
+  | nil =>
+    intro blocksDone D pre st hall hF hD henv _
+    simp only [List.append_nil] at hall
+    subst hall
+    refine ⟨st, D, rfl, hF, ?_, rfl⟩
+    intro x; rw [hD x, henv]; simp [instrsOf, instrDsts]
+  | cons b rest ih =>
+    intro blocksDone D pre st hall hF hD henv hdone
+    have hbmem : b ∈ allBlocks := by rw [← hall]; simp
+    have hdonemem : ∀ c, c ∈ blocksDone → c ∈ allBlocks := by intro c hc; rw [← hall]; simp [hc]
+    have hprev : ∀ j, j ∈ instrsOf blocksDone → opsOk G env j ∧ typedOk G env j = true := by
+      intro j hj
+      simp only [instrsOf, List.mem_flatMap] at hj
+      obtain ⟨c, hc, hjc⟩ := hj
+      have := hok c (hdonemem c hc) j hjc
+      exact ⟨this.ops, this.ty⟩
+    have hbn : ∀ x, x ∈ bnamesOf blocksDone → x ∈ bnamesOf allBlocks := by
+      intro x hx; rw [← hall]; simp [bnamesOf] at hx ⊢; exact Or.inl hx
+    have hname : b.name ∈ bnamesOf allBlocks := by rw [← hall]; simp [bnamesOf]
+    have hndn : (bnamesOf allBlocks).Nodup := (List.nodup_append.1 hnd2).1
+    have hfresh : b.name ∉ bnamesOf blocksDone := by
+      rw [← hall] at hndn
+      simp only [bnamesOf, List.map_append, List.map_cons] at hndn
+      have := (List.nodup_append.1 hndn).2.2
+      intro hm
+      exact this b.name (by simpa [bnamesOf] using hm) b.name (by simp) rfl
+    have hnodst : b.name ∉ (instrDsts (instrsOf blocksDone ++ b.instrs)).map (·.1) := by
+      intro hm
+      have hdis := (List.nodup_append.1 hnd2).2.2
+      apply hdis b.name hname b.name _ rfl
+      rw [← hall, instrsOf_append, instrsOf_cons, instrDsts_append, instrDsts_append]
+      rw [instrDsts_append] at hm
+      simp only [List.map_append, List.mem_append] at hm ⊢
+      rcases hm with h1 | h1
+      · exact Or.inl h1
+      · exact Or.inr (Or.inl h1)
+    have henv' : env = pre ++ instrDsts b.instrs ++ instrDsts (instrsOf rest) := by
+      rw [henv, instrsOf_cons, instrDsts_append]; simp
+    obtain ⟨s1, D1, e1, hF1, hD1, hjs1⟩ :=
+      hblk hdisj hfuncs hnd (instrDsts (instrsOf rest)) blocksDone b D pre st hF hD henv' hdone hprev
+        (hok b hbmem) (hne b hbmem) hbn hname hfresh hnodst
+    have hall1 : (blocksDone ++ [b]) ++ rest = allBlocks := by rw [← hall]; simp
+    have hdone1 : ∀ x, x ∈ (instrDsts (instrsOf (blocksDone ++ [b]))).map (·.1) →
+        x ∈ (pre ++ instrDsts b.instrs).map (·.1) := by
+      intro x hx
+      rw [instrsOf_append, instrDsts_append] at hx
+      simp only [List.map_append, List.mem_append] at hx ⊢
+      rcases hx with h1 | h1
+      · exact Or.inl (hdone x h1)
+      · exact Or.inr (by simpa [instrsOf] using h1)
+    obtain ⟨st', D', e2, hF', hD', hjs2⟩ :=
+      ih (blocksDone ++ [b]) D1 (pre ++ instrDsts b.instrs) s1 hall1 hF1 hD1 (by rw [henv']) hdone1
+    exact ⟨st', D', by simp [blocksWith, e1, e2], hF', hD', hjs2.trans hjs1⟩
+
+/-! ## a whole function -/
+
+def paramsAll : BState → List (String × Ty) → Except RErr BState
+  | st, [] => .ok st
+  | st, p :: r =>
+    match defineLocal st p.1 p.2 with
+    | .error e => .error e
+    | .ok s => paramsAll s r
+
+def funcWith (blk : BState → Block → Except RErr BState) (st : BState) (f : Func) : Except RErr BState :=
+  match defineGlobal st f.name with
+  | .error e => .error e
+  | .ok s0 =>
+    match paramsAll (beginFunc s0) f.params with
+    | .error e => .error e
+    | .ok s1 =>
+      match blocksWith blk s1 f.blocks with
+      | .error e => .error e
+      | .ok s2 => endFunc s2 f.name f.isGlobal f.ret f.params
+
+/-- the state between two module-level declarations -/
+structure MInv (G : List String) (gdone : List String) (funcsDone : List Func) (st : BState) : Prop where
+  globals : ∀ x, x ∈ st.globals ↔ x ∈ gdone
+  pend : ∀ x t, lookupTy st.pending x = some t → x ∈ G ∧ x ∉ st.globals ∧ t = .ptr
+  funcs : st.funcs = funcsDone
+  cur : st.cur = []
+  blocks : st.blocks = []
+
+theorem maskOp_full (D : List String) (o : Operand) (h : ∀ x, o = .loc x → x ∈ D) : maskOp D o = o := by
+  cases o with
+  | glob g => rfl
+  | loc x => simp [maskOp, h x rfl]
+
+/-- once every value of the function is defined, the recorded instruction is the instruction -/
+theorem maskInstr_full {G : List String} {env : TyEnv} (D : List String) (i : Instr)
+    (hD : ∀ x, x ∈ env.map (·.1) → x ∈ D) (hops : opsOk G env i) (hty : typedOk G env i = true) :
+    maskInstr D i = i := by
+  have P : ∀ o ∈ operands i, maskOp D o = o := by
+    intro o ho
+    apply maskOp_full
+    intro x hx
+    subst hx
+    exact hD x ((lookupTy_isSome_iff env x).1 (hops _ ho))
+  cases i with
+  | const _ _ _ => rfl
+  | undefined _ _ => rfl
+  | literal _ _ => rfl
+  | alloc _ _ _ => rfl
+  | exit => rfl
+  | jump _ => rfl
+  | asm _ _ _ _ => rfl
+  | addrof dd s => simp [maskInstr, P s (by simp [operands, Instr.uses])]
+  | binop dd ty op a b =>
+    simp [maskInstr, P a (by simp [operands, Instr.uses]), P b (by simp [operands, Instr.uses])]
+  | unop dd ty op a => simp [maskInstr, P a (by simp [operands, Instr.uses])]
+  | cast dd ty a => simp [maskInstr, P a (by simp [operands, Instr.uses])]
+  | load dd ty a vol => simp [maskInstr, P a (by simp [operands, Instr.uses])]
+  | ret v => simp [maskInstr, P v (by simp [operands, Instr.uses])]
+  | copyblob a b n =>
+    simp [maskInstr, P a (by simp [operands, Instr.uses]), P b (by simp [operands, Instr.uses])]
+  | cjump a c b y n =>
+    simp [maskInstr, P a (by simp [operands, Instr.uses]), P b (by simp [operands, Instr.uses])]
+  | store ty v a vol =>
+    obtain ⟨hvt, -⟩ : tyOf G env v = some ty ∧ tyOf G env a = some .ptr := by simpa [typedOk] using hty
+    simp only [maskInstr, P v (by simp [operands, Instr.uses]), P a (by simp [operands, Instr.uses])]
+    cases v with
+    | loc x => rfl
+    | glob g =>
+      have : ty = .ptr := ((tyOf_glob G env g ty).1 hvt).2
+      simp [this]
+  | fcall dd ty c args =>
+    have hargs : args.map (maskOp D) = args := by
+      conv => rhs; rw [← List.map_id args]
+      exact List.map_congr_left (fun o ho => P o (by simp [operands, Instr.uses, ho]))
+    simp [maskInstr, P c (by simp [operands, Instr.uses]), hargs]
+  | pcall c args =>
+    have hargs : args.map (maskOp D) = args := by
+      conv => rhs; rw [← List.map_id args]
+      exact List.map_congr_left (fun o ho => P o (by simp [operands, Instr.uses, ho]))
+    simp [maskInstr, P c (by simp [operands, Instr.uses]), hargs]
+  | phi dd ty ins =>
+    have hins : ins.map (fun q => (q.1, maskOp D q.2)) = ins := by
+      conv => rhs; rw [← List.map_id ins]
+      exact List.map_congr_left (fun q hq => by
+        have := P q.2 (by simp only [operands, List.mem_map]; exact ⟨q, hq, rfl⟩)
+        simp [this])
+    simp [maskInstr, hins]
+
+theorem globOk_of_opsOk {G : List String} {env : TyEnv} (i : Instr) (hops : opsOk G env i)
+    (hty : typedOk G env i = true) : globOk G i ∧ storeOk i := by
+  refine ⟨?_, ?_⟩
+  · intro o ho g hg
+    subst hg
+    exact tyOf_isSome_glob (hops _ ho)
+  · intro ty g a vol hi
+    subst hi
+    obtain ⟨hvt, -⟩ : tyOf G env (.glob g) = some ty ∧ tyOf G env a = some .ptr := by simpa [typedOk] using hty
+    exact ((tyOf_glob G env g ty).1 hvt).2
+
+/-- a module-level definition of `g` leaves finished functions as they are -/
+theorem patchFunc_glob_id {G : List String} (g : String) (f : Func) (h : funcGlobOk G f) :
+    patchFunc g (.glob g) .ptr f = f := by
+  have PO : ∀ o : Operand, patchOpnd g (.glob g) o = o := by
+    intro o
+    cases o with
+    | loc x => rfl
+    | glob y =>
+      by_cases hy : y = g
+      · subst hy; simp [patchOpnd]
+      · simp [patchOpnd, hy]
+  have PL : ∀ l : List Operand, l.map (patchOpnd g (.glob g)) = l := by
+    intro l
+    conv => rhs; rw [← List.map_id l]
+    exact List.map_congr_left (fun o _ => PO o)
+  cases f with
+  | mk name isGlobal ret entry params blocks =>
+    simp only [patchFunc]
+    congr 1
+    conv => rhs; rw [← List.map_id blocks]
+    apply List.map_congr_left
+    intro b hb
+    cases b with
+    | mk bn is =>
+      simp only [patchBlock, id]
+      congr 1
+      conv => rhs; rw [← List.map_id is]
+      apply List.map_congr_left
+      intro i hi
+      have hst := (h _ hb i hi).2
+      cases i with
+      | store ty v a vol =>
+        simp only [patchInstr, PO, id]
+        by_cases hv : v = .glob g
+        · subst hv
+          have : ty = .ptr := hst ty g a vol rfl
+          simp [this]
+        · simp [hv]
+      | phi dd ty ins =>
+        have : ins.map (fun q => (q.1, patchOpnd g (.glob g) q.2)) = ins := by
+          conv => rhs; rw [← List.map_id ins]
+          exact List.map_congr_left (fun q _ => by simp [PO])
+        simp [patchInstr, this]
+      | _ => simp [patchInstr, PO, PL]
+
+theorem paramsAll_spec {G : List String} {env : TyEnv} {funcsDone : List Func}
+    (hdisj : ∀ x, x ∈ env.map (·.1) → x ∉ G) (hfuncs : ∀ f ∈ funcsDone, funcGlobOk G f)
+    (hnd : (env.map (·.1)).Nodup) (post : TyEnv) :
+    ∀ (ps : List (String × Ty)) (pre : TyEnv) (D : List String) (st : BState),
+      Recd G env funcsDone D [] [] st → (∀ x, x ∈ D ↔ x ∈ pre.map (·.1)) → env = pre ++ ps ++ post →
+      ∃ st' D', paramsAll st ps = .ok st' ∧ Recd G env funcsDone D' [] [] st' ∧
+        (∀ x, x ∈ D' ↔ x ∈ (pre ++ ps).map (·.1)) ∧
+        st'.defined = st.defined ∧ st'.blockRefs = st.blockRefs ∧ st'.blockDefs = st.blockDefs ∧
+        st'.json = st.json ∧ st'.globals = st.globals := by
+  intro ps
+  induction ps with
+  | nil =>
+    intro pre D st h hD _
+    exact ⟨st, D, rfl, h, by simpa using hD, rfl, rfl, rfl, rfl, rfl⟩
+  | cons q ps ih =>
+    intro pre D st h hD henv
+    obtain ⟨n, T⟩ := q
+    have hsplit : env = pre ++ (n, T) :: (ps ++ post) := by rw [henv]; simp
+    have hnd' : (pre.map (·.1) ++ n :: (ps ++ post).map (·.1)).Nodup := by
+      rw [hsplit] at hnd; simpa using hnd
+    have hnpre : n ∉ pre.map (·.1) := by
+      have := (List.nodup_append.1 hnd').2.2
+      intro hm
+      exact this n hm n (by simp) rfl
+    have hT : lookupTy env n = some T := by
+      rw [hsplit, lookupTy_append, (lookupTy_none_iff pre n).2 hnpre]
+      simp [lookupTy]
+    have hDn : n ∉ D := fun hm => hnpre ((hD n).1 hm)
+    obtain ⟨st2, e, recd2, h1, h2, h3, _, h5, _, h7⟩ :=
+      define_spec h hdisj hfuncs (by intro j hj; simp at hj) n T hT hDn
+    obtain ⟨st', D', e', recd', hD', g1, g2, g3, g5, g7⟩ :=
+      ih (pre ++ [(n, T)]) (n :: D) st2 recd2
+        (by intro x; simp [hD x, or_comm]) (by rw [henv]; simp)
+    refine ⟨st', D', ?_, recd', ?_, g1.trans h1, g2.trans h2, g3.trans h3, g5.trans h5, g7.trans h7⟩
+    · simp [paramsAll, e, e']
+    · intro x; rw [hD' x]; simp
+
+/-- the conjuncts of `funcCore`, as propositions -/
+structure FuncFacts (G : List String) (f : Func) : Prop where
+  ndEnv : ((Func.env f).map (·.1)).Nodup
+  ndNames : (bnamesOf f.blocks ++ (instrDsts (instrsOf f.blocks)).map (·.1)).Nodup
+  disj : ∀ x, x ∈ (Func.env f).map (·.1) → x ∉ G
+  ops : ∀ i, i ∈ instrsOf f.blocks → opsOk G (Func.env f) i
+  refs : ∀ i, i ∈ instrsOf f.blocks → ∀ b, b ∈ blockRefsOf i → b ∈ bnamesOf f.blocks
+  typed : ∀ i, i ∈ instrsOf f.blocks → typedOk G (Func.env f) i = true
+  term : ∀ b, b ∈ f.blocks → noEarlyTerminator b.instrs = true
+  entry : f.blocks.head?.map (·.name) = some f.entry
+  phi : ∀ i, i ∈ instrsOf f.blocks → nodupB (i.phiIns.map (·.1)) = true
+
+theorem funcFacts_of_core {G : List String} {f : Func} (h : funcCore G f = true) : FuncFacts G f := by
+  unfold funcCore at h
+  simp only [Bool.and_eq_true, List.all_eq_true, beq_iff_eq, Bool.not_eq_true', decide_eq_true_eq] at h
+  obtain ⟨⟨⟨⟨⟨⟨⟨⟨h1, h2⟩, h3⟩, h4⟩, h5⟩, h6⟩, h7⟩, h8⟩, h9⟩ := h
+  refine ⟨(nodupB_iff _).1 h1, (nodupB_iff _).1 h2, ?_, ?_, ?_, h6, h7, h8, h9⟩
+  · intro x hx hxG
+    have := h3 x hx
+    simp [hxG] at this
+  · intro i hi o ho; exact h4 i hi o ho
+  · intro i hi b hb
+    have := h5 i hi b hb
+    simpa [bnamesOf] using this
+
+theorem head?_eq_some_name {bs : List Block} {e : String}
+    (h : bs.head?.map (·.name) = some e) : (bs.head?.map (·.name)).getD "!none!" = e := by
+  rw [h]; rfl
+
+
+theorem funcWith_spec {blk : BState → Block → Except RErr BState} (hblk : BlkSpec blk)
+    {G : List String} {gdone : List String} {funcsDone : List Func} {st : BState} (f : Func)
+    (hM : MInv G gdone funcsDone st) (hgsub : ∀ x, x ∈ gdone → x ∈ G) (hfn : f.name ∈ G)
+    (hfresh : f.name ∉ gdone) (hfuncs : ∀ g ∈ funcsDone, funcGlobOk G g) (hcore : funcCore G f = true) :
+    ∃ st', funcWith blk st f = .ok st' ∧ MInv G (f.name :: gdone) (funcsDone ++ [f]) st' ∧
+      st'.json = st.json ∧ funcGlobOk G f := by
+  have F := funcFacts_of_core hcore
+  -- 1. define the subroutine at module level
+  have hnotg : f.name ∉ st.globals := fun hm => hfresh ((hM.globals _).1 hm)
+  have hfid : st.funcs.map (patchFunc f.name (.glob f.name) .ptr) = st.funcs := by
+    conv => rhs; rw [← List.map_id st.funcs]
+    apply List.map_congr_left
+    intro g hg
+    rw [hM.funcs] at hg
+    exact patchFunc_glob_id f.name g (hfuncs g hg)
+  obtain ⟨s0, e0, hs0g, hs0p, hs0f, hs0j⟩ :
+      ∃ s0, defineGlobal st f.name = .ok s0 ∧ s0.globals = f.name :: st.globals ∧
+        (∀ x, lookupTy s0.pending x = if x = f.name then none else lookupTy st.pending x) ∧
+        s0.funcs = st.funcs ∧ s0.json = st.json := by
+    by_cases hit : (lookupTy st.pending f.name).isSome = true
+    · refine ⟨{ (patchAll st f.name false .ptr) with globals := f.name :: st.globals }, ?_, rfl, ?_, ?_, rfl⟩
+      · simp [defineGlobal, hit, patchAll, hnotg]
+      · intro x; exact lookupTy_eraseKey st.pending f.name x
+      · simpa [patchAll] using hfid
+    · have hnone : lookupTy st.pending f.name = none := by
+        cases hq : lookupTy st.pending f.name with
+        | none => rfl
+        | some t => simp [hq] at hit
+      refine ⟨{ st with globals := f.name :: st.globals }, ?_, rfl, ?_, rfl, rfl⟩
+      · simp [defineGlobal, hit, hnotg]
+      · intro x
+        by_cases hx : x = f.name
+        · subst hx; simp [hnone]
+        · simp [hx]
+  -- 2. enter the function scope, define the parameters
+  have hInv0 : Inv G (Func.env f) [] (beginFunc s0) := by
+    refine ⟨?_, ?_, ?_⟩
+    · intro g hg
+      have : g ∈ f.name :: st.globals := by
+        have : g ∈ s0.globals := hg
+        rwa [hs0g] at this
+      rcases List.mem_cons.1 this with rfl | h1
+      · exact hfn
+      · exact hgsub g ((hM.globals g).1 h1)
+    · intro x; simp [beginFunc, lookupTy]
+    · intro x t hx
+      have hx' : lookupTy s0.pending x = some t := hx
+      rw [hs0p x] at hx'
+      by_cases hxf : x = f.name
+      · simp [hxf] at hx'
+      · simp only [hxf, if_false] at hx'
+        obtain ⟨h1, h2, h3⟩ := hM.pend x t hx'
+        refine Or.inl ⟨h1, ?_, h3⟩
+        show x ∉ s0.globals
+        rw [hs0g]; simp [hxf, h2]
+  have hRecd0 : Recd G (Func.env f) funcsDone [] [] [] (beginFunc s0) :=
+    ⟨hInv0, rfl, rfl, by show s0.funcs = _; rw [hs0f, hM.funcs], by intro j hj; simp at hj⟩
+  obtain ⟨s1, D1, e1, recd1, hD1, hdef1, hrefs1, hbd1, hjs1, hgl1⟩ :=
+    paramsAll_spec F.disj hfuncs F.ndEnv (instrDsts (instrsOf f.blocks)) f.params [] [] (beginFunc s0) hRecd0
+      (by simp) (by simp [Func.env, Func.instrs, instrsOf])
+  -- 3. the blocks
+  have hF1 : FInv (f.name :: st.globals) G (Func.env f) (bnamesOf f.blocks) funcsDone D1 [] []
+      (bnamesOf []) (bnamesOf []) s1 := by
+    refine ⟨recd1, ?_, ?_, ?_, ?_⟩
+    · rw [hgl1]; show s0.globals = _; exact hs0g
+    · intro n hn; rw [hdef1] at hn; simp [beginFunc] at hn
+    · intro b hb; rw [hrefs1] at hb; simp [beginFunc] at hb
+    · intro n; rw [hbd1]; simp [beginFunc, bnamesOf]
+  have hok : ∀ b ∈ f.blocks, ∀ i ∈ b.instrs, IOk G (Func.env f) (bnamesOf f.blocks) i := by
+    intro b hb i hi
+    have hmem : i ∈ instrsOf f.blocks := by
+      simp only [instrsOf, List.mem_flatMap]; exact ⟨b, hb, hi⟩
+    refine ⟨F.ops i hmem, F.typed i hmem, F.phi i hmem, F.refs i hmem, ?_⟩
+    intro d T hd hm
+    have hdis := (List.nodup_append.1 F.ndNames).2.2
+    apply hdis d hm d _ rfl
+    simp only [List.mem_map]
+    refine ⟨(d, T), ?_, rfl⟩
+    simp only [instrDsts, List.mem_filterMap]
+    exact ⟨i, hmem, hd⟩
+  obtain ⟨s2, D2, e2, hF2, hD2, hjs2⟩ :=
+    blocksWith_spec hblk f.blocks F.disj hfuncs F.ndEnv F.ndNames hok F.term f.blocks [] D1 f.params s1
+      (by simp) hF1 (by simpa using hD1) (by simp [Func.env, Func.instrs, instrsOf])
+      (by intro x hx; simp [instrsOf, instrDsts] at hx)
+  -- 4. leave the scope
+  have hblocks : s2.blocks = f.blocks := by
+    rw [hF2.recd.blocks]
+    conv => rhs; rw [← List.map_id f.blocks]
+    apply List.map_congr_left
+    intro b hb
+    cases b with
+    | mk bn is =>
+      simp only [maskBlock, id]
+      congr 1
+      conv => rhs; rw [← List.map_id is]
+      apply List.map_congr_left
+      intro i hi
+      have hmem : i ∈ instrsOf f.blocks := by
+        simp only [instrsOf, List.mem_flatMap]; exact ⟨_, hb, hi⟩
+      exact maskInstr_full D2 i (fun x hx => (hD2 x).2 hx) (F.ops i hmem) (F.typed i hmem)
+  have hrefsOk : (s2.blockRefs.any (fun b => !s2.blockDefs.contains b)) = false := by
+    rw [List.any_eq_false]
+    intro b hb
+    have h1 : b ∈ bnamesOf f.blocks := hF2.refs b hb
+    have h2 : b ∈ s2.blockDefs := (hF2.bdefs b).2 h1
+    simp [h2]
+  have hfeq : Func.mk f.name f.isGlobal f.ret ((s2.blocks.head?.map (·.name)).getD "!none!") f.params s2.blocks = f := by
+    rw [hblocks, head?_eq_some_name F.entry]
+  let sF : BState := { s2 with funcs := s2.funcs ++ [f], locals := [], defined := [], blockDefs := [],
+                               blockRefs := [], blocks := [], cur := [], curName := "" }
+  have hend : endFunc s2 f.name f.isGlobal f.ret f.params = .ok sF := by
+    simp only [endFunc, hrefsOk, Bool.false_eq_true, if_false]
+    rw [hfeq]
+  refine ⟨sF, ?_, ?_, ?_, ?_⟩
+  · simp only [funcWith, e0, e1, e2]; exact hend
+  · refine ⟨?_, ?_, ?_, rfl, rfl⟩
+    · intro x
+      show x ∈ s2.globals ↔ _
+      rw [hF2.geq]; simp [hM.globals x]
+    · intro x t hx
+      have hx' : lookupTy s2.pending x = some t := hx
+      rcases hF2.recd.inv.pend x t hx' with h1 | ⟨h1, T, h2, _⟩
+      · exact h1
+      · exfalso
+        apply h1
+        exact (hD2 x).2 ((lookupTy_isSome_iff _ x).1 (by simp [h2]))
+    · show s2.funcs ++ [f] = _
+      rw [hF2.recd.funcs]
+  · show s2.json = st.json
+    rw [hjs2, hjs1]; show s0.json = _; exact hs0j
+  · intro b hb i hi
+    have hmem : i ∈ instrsOf f.blocks := by
+      simp only [instrsOf, List.mem_flatMap]; exact ⟨b, hb, hi⟩
+    exact globOk_of_opsOk i (F.ops i hmem) (F.typed i hmem)
+
+/-! ## all functions of a module -/
+
+def funcsWith (blk : BState → Block → Except RErr BState) : BState → List Func → Except RErr BState
+  | st, [] => .ok st
+  | st, f :: r =>
+    match funcWith blk st f with
+    | .error e => .error e
+    | .ok s => funcsWith blk s r
+
+theorem funcsWith_spec {blk : BState → Block → Except RErr BState} (hblk : BlkSpec blk)
+    {G : List String} (hG : G.Nodup) :
+    ∀ (fs : List Func) (gdone : List String) (funcsDone : List Func) (st : BState),
+      MInv G gdone funcsDone st → (∀ x, x ∈ gdone → x ∈ G) →
+      (∀ f, f ∈ fs → f.name ∈ G) → (gdone ++ fs.map (·.name)).Nodup →
+      (∀ g ∈ funcsDone, funcGlobOk G g) → (∀ f, f ∈ fs → funcCore G f = true) →
+      ∃ st', funcsWith blk st fs = .ok st' ∧ MInv G ((fs.map (·.name)).reverse ++ gdone) (funcsDone ++ fs) st' ∧
+        st'.json = st.json := by
+  intro fs
+  induction fs with
+  | nil =>
+    intro gdone funcsDone st hM _ _ _ _ _
+    exact ⟨st, rfl, by simpa using hM, rfl⟩
+  | cons f fs ih =>
+    intro gdone funcsDone st hM hgsub hnames hnd hfuncs hcore
+    have hfresh : f.name ∉ gdone := by
+      have := (List.nodup_append.1 hnd).2.2
+      intro hm
+      exact this f.name hm f.name (by simp) rfl
+    obtain ⟨s1, e1, hM1, hj1, hgo⟩ :=
+      funcWith_spec hblk f hM hgsub (hnames f (by simp)) hfresh hfuncs (hcore f (by simp))
+    have hnd1 : ((f.name :: gdone) ++ fs.map (·.name)).Nodup := by
+      have h1 := hnd
+      simp only [List.map_cons] at h1
+      have : (gdone ++ f.name :: fs.map (·.name)).Perm ((f.name :: gdone) ++ fs.map (·.name)) := by
+        simpa using List.perm_middle
+      exact this.nodup_iff.1 h1
+    obtain ⟨st', e2, hM2, hj2⟩ :=
+      ih (f.name :: gdone) (funcsDone ++ [f]) s1 hM1
+        (by intro x hx; rcases List.mem_cons.1 hx with rfl | h1
+            · exact hnames _ (by simp)
+            · exact hgsub x h1)
+        (fun g hg => hnames g (by simp [hg])) hnd1
+        (by intro g hg; rcases List.mem_append.1 hg with h1 | h1
+            · exact hfuncs g h1
+            · simp at h1; subst h1; exact hgo)
+        (fun g hg => hcore g (by simp [hg]))
+    refine ⟨st', by simp [funcsWith, e1, e2], ?_, hj2.trans hj1⟩
+    simpa using hM2
+
+theorem pending_nil_of_no_entry (p : TyEnv) (h : ∀ x t, lookupTy p x = some t → False) : p = [] := by
+  cases p with
+  | nil => rfl
+  | cons q r =>
+    obtain ⟨k, t⟩ := q
+    exact (h k t (by simp [lookupTy])).elim
+
 end Proofs.IRBuild
